@@ -52,12 +52,17 @@ def build(case):
     fl = np.array(p["floors"], dtype=float) if np.ndim(p["floors"]) else float(p["floors"])
     g = GMMMachine(int(p["C"]))
     order = case.get("order", "floors_first")
+    means = np.array(p["means"], dtype=float)
+    if case.get("int_params"):
+        # integer-typed parameter arrays are valid numeric input too (the case holds integral values)
+        means = np.rint(means).astype(np.int64)
+        raw = np.rint(raw).astype(np.int64)
     if order == "floors_first":
         g.variance_thresholds = fl
-        g.means = np.array(p["means"], dtype=float)
+        g.means = means
         g.variances = raw
     else:
-        g.means = np.array(p["means"], dtype=float)
+        g.means = means
         g.variances = raw
         if order == "floors_after_a_likelihood":
             g.log_likelihood(np.array(p["means"][:1], dtype=float))
@@ -85,6 +90,13 @@ def g_formula(draw):
         raw[m] = fl[m] * 10.0 ** r.uniform(-3, -0.1, int(m.sum()))
         c["raw_variances"] = raw
         p["variances"] = np.maximum(raw, fl)
+    if "raw_variances" not in c and float(p["scales"].min()) >= 1 and gen.choice(draw, [False, False, True]):
+        # integral means and variances, handed over as int64 arrays
+        p["means"] = np.rint(p["means"])
+        p["variances"] = np.maximum(np.rint(p["variances"]), 1.0)
+        fl = np.broadcast_to(np.asarray(p["floors"], float), p["variances"].shape)
+        if (p["variances"] >= fl).all():
+            c["int_params"] = True
     return c
 
 
@@ -98,7 +110,7 @@ def c_formula(ctx, case):
     ctx.close(var, p["variances"], "visible variances == max(given, floors)", rtol=0, atol=0)
     ctx.note(_nontrivial(p, X), "kind:" + case["kind"], "floor:" + p["floor_kind"],
              "C>=2" if p["C"] >= 2 else "C=1", "order:" + case.get("order", "floors_first"),
-             "clamped-by-floor" if "raw_variances" in case else None)
+             "clamped-by-floor" if "raw_variances" in case else None, "int-params" if case.get("int_params") else None)
     want_lw = ref.gmm_log_weighted(X, p["weights"], p["means"], p["variances"])
     want = logsumexp(want_lw, axis=0)
     Xarg = sut.present(X, case.get("how", "plain"))
